@@ -167,7 +167,7 @@ PROPS = {
         level_text='Decides equality-vs-ordering consistency structurally and totality + sign laws of the algebra and conversions by abstract interpretation; magnitudes are not decided.',
     ),
     'C18': dict(
-        rules=[r_tables.s18_source_tables, r_tables.s18b_clv_zero_range, r_tables.s06_ma_dispatch, r_conv.s19b_same_name_wiring,
+        rules=[r_tables.s18_source_tables, r_tables.s18b_clv_zero_range, r_tables.s18c_validate_boxes, r_tables.s06_ma_dispatch, r_conv.s19b_same_name_wiring,
                lambda ctx: r_absint.a01_constructors(ctx, groups=('parser',), rule_id='A01p', min_entries=4,
                    title='Source::from_str, MA::from_str and the TryFrom conversions reach no panic for any text')],
         feature_sets=_sets(['default']),
@@ -177,8 +177,9 @@ PROPS = {
                      'default arm is Err, serde names equal G, TryFrom forwards to from_str, and OHLCV::source(kind) calls exactly the '
                      'accessor named G(kind) and returns it unchanged. (S06) MA: from_str maps lowercase(kind) to the kind with the parsed '
                      'period and rejects other names. (S18b) clv\'s zero-range guard returns the documented constant. (S19b) every OHLCV accessor of a derived candle type (HeikinAshi, Renko bricks, ...) '
-                     'that shares a name with a field reads that field (or the documented max/min of open and close).'),
-        not_decided=['numeric identities (tp, hl2, ohlc4, clv, true range), validate\'s exact acceptance set, associativity of +: '
+                     'that shares a name with a field reads that field (or the documented max/min of open and close). (S18c) OHLCV::validate is interpreted abstractly on boxes of candles, its five required accessors standing for '
+                     'any value of the box: a non-positive, NaN or infinite value of any one price, or a negative volume, is rejected whatever the other fields are; unordered boxes are rejected; ordered positive finite boxes with volume >= 0 or NaN are accepted.'),
+        not_decided=['numeric identities (tp, hl2, ohlc4, clv, true range), the ordering clause of validate beyond the three disjoint boxes S18c runs, associativity of +: '
                      'statements about float values for all candles, not decided',
                      'str::parse of the numeric period is trusted to be total (std)'],
         assumptions=TRUST,
@@ -232,7 +233,7 @@ PROPS = {
                     'helper, ~1800 bodies compared. Complete for the property as stated, modulo the trusted std contracts.'),
     ),
     'C20': dict(
-        rules=[r_width.s21_iso, r_width.s21_ops, r_counters.s08_monotone_counters,
+        rules=[r_width.s21_iso, r_width.s21_ops, r_counters.s08_monotone_counters, r_absint.a01s_saturated_capacity,
                lambda ctx: r_absint.a01_constructors(ctx, groups=('method-new', 'ma-init', 'config-init'), fs='u16', rule_id='A01-u16', min_entries=85,
                    title='period_type_u16 build: method constructors, MA::init and indicator init reach no panic / overflow for any 16-bit length '
                          '(window lengths beyond 255 construct as the narrow ones do)')],
@@ -243,7 +244,8 @@ PROPS = {
                      'MAX/2^j - k; (S21-ops) every width-sensitive operation on a PeriodType-typed value (narrowing / float cast into it, '
                      'saturating_add and friends, capacity constants) lies in a constructor-like function (new/validate/init/deserialize/'
                      'from_parts) or carries a recorded argument; (S08) no narrow monotone position counter; (A01-u16) the abstract interpreter run on the '
-                     'period_type_u16 build refutes every panic site reachable from constructors for all 65536 lengths.'),
+                     'period_type_u16 build refutes every panic site reachable from constructors for all 65536 lengths; (A01s) no constructor uses as a number '
+                     'the result of a saturating addition that can sit at the type\'s capacity for an accepted parameter (such a value is 255 on the default build and 256 on the wide ones); comparing it to reject the parameter is the accepted idiom.'),
         not_decided=['definitional equalities beyond length 255 and at single precision (numeric): not decided',
                      'constructors of the u32/u64 builds are not interpreted (lengths of 10^5 and more overflow usize products there and cannot be allocated anyway)'],
         assumptions=TRUST,
@@ -312,7 +314,8 @@ PROPS = {
         level_text='Emission discipline and aggregation wiring decided exactly; numeric converter behaviour not claimed.',
     ),
     'C12': dict(
-        rules=[r_nan.s16_nan_sources, r_nan.s16b_dispersion_sign, r_nan.s16c_band_order],
+        rules=[r_nan.s16_nan_sources, r_nan.s16b_dispersion_sign, r_nan.s16c_band_order,
+               lambda ctx: r_step.s07_step_once(ctx, only_types='windowed', rule_id='S07o')],
         feature_sets=_sets(['default']),
         explanation=('(S16) every float division, remainder, sqrt, ln, atanh and recip in every non-constructor function is enumerated from MIR '
                      'and its critical operand classified: G1 non-zero literal; G2 cast of an integer that the abstract interpretation of '
